@@ -4,6 +4,11 @@ import json, os, subprocess
 V = os.path.dirname(os.path.abspath(__file__))
 
 CHECKS = {
+ 'C11': dict(cat='model_checking', tech='exhaustive enumeration of buffer placements (every dest-src offset x auxiliary-input positions) on the real code; relational oracle = disjoint-buffer run',
+             text='For every function whose header says its buffers may overlap: every relative offset of dest against src in [-(len+16), len+16] x each auxiliary input (key, IV, header, MAC, associated data) '
+                  'outside / at three positions inside the output region, excluding the combinations the header forbids; memMove and memJoin completely on a 20-octet arena; key-inside-state for every *Start and '
+                  'result-inside-state for every StepG the headers list; outputs and err_t must equal the run on pairwise disjoint copies.',
+             note='trusted: gcc -O2 build; the list of overlap-tolerant functions was extracted from the headers', ref='4/C11'),
  'C03': dict(cat='model_checking', tech='bounded exhaustive shape enumeration against spec-level reference models; explicit-state search of the bash automaton over byte snapshots of the real state',
              text='bash-f on all single-bit states, bash hash on every level x every length 0..2r+1, brng CTR/HMAC on IV classes whose counter carries out of every word and wraps all 256 bits with every '
                   'chunking class, HOTP/TOTP/OCRA over the suite grammar with verify accept/reject, all compared with independent spec-level models; the programmable automaton is searched to depth 2-4 from 54 '
